@@ -659,6 +659,11 @@ int main(void) {
         const int is_gw = (op[0] == 'g');
         const char * const gop = op;
         if (is_gw) ++op;
+        /* "scgibuf" / "uwsgibuf": as "scgi" / "uwsgi", but the observation is taken right after
+         * scgi_create_env(): offset of the first chunk of hctx->wb, the bytes of its buffer in front of that
+         * offset, wb_reqlen, wb.bytes_in, wb.bytes_out, then everything a reader of the queue gets */
+        const int is_buf = (0 == strcmp(op, "scgibuf") || 0 == strcmp(op, "uwsgibuf"));
+        if (is_buf) op = (op[0] == 's') ? "scgi" : "uwsgi";
         const int is_cgibody = 0 == strcmp(op, "cgibody");
         const int is_env = 0 == strcmp(op, "env"), is_cgi = 0 == strcmp(op, "cgi") || is_cgibody,
                   is_fcgi = 0 == strcmp(op, "fcgi"), is_scgi = 0 == strcmp(op, "scgi"),
@@ -937,6 +942,23 @@ int main(void) {
         rc = hctx->create_env(hctx);
         if (HANDLER_GO_ON != rc) {
             printf("st=%d\n", r->http_status);
+            release_hctx(p);
+            goto done;
+        }
+        if (is_buf) {
+            const chunk * const c = hctx->wb.first;
+            if (NULL == c || c->type != MEM_CHUNK) puts("buf no-mem-chunk");
+            else {
+                printf("buf off=%lld hid=", (long long)c->offset);
+                ltv_puthex(c->mem->ptr, (size_t)c->offset);
+                printf(" reqlen=%lld in=%lld bo=%lld pend=%lld out=", (long long)hctx->wb_reqlen,
+                       (long long)hctx->wb.bytes_in, (long long)hctx->wb.bytes_out,
+                       (long long)chunkqueue_length(&r->reqbody_queue));
+                drain(&hctx->wb);
+                if (drain_err) fputs("DRAIN-ERROR", stdout);
+                ltv_puthex(capture->ptr, buffer_clen(capture));
+                fputc('\n', stdout);
+            }
             release_hctx(p);
             goto done;
         }
